@@ -33,6 +33,8 @@ try:
     import bounded_run
     exe, err = bounded_run.build("/repo")
     print("bounded stand-ins built" if exe else "setup warning: bounded stand-ins do not build: " + err[-300:])
+    sb, err = bounded_run.build_slicec_bin("/repo")
+    print("slicec binary (stand-in `generators`) built" if sb else "setup warning: the slicec binary does not build: " + err[-300:])
 except Exception as ex:
     print("setup warning:", ex)
 p = subprocess.run(["verus", "--version"], capture_output=True, text=True)
